@@ -128,8 +128,6 @@ impl ItsReadoutFrameValidator {
     /// `fatal_lanes.as_deref()` (Option<&[u8]> in the code)
     #[verifier::external_body]
     pub fn fatal_lanes(&self) -> (r: Option<&LaneList>) ensures (match r { Some(l) => Some(l.v@), None => None }) == opt_seq(self.fatal_lanes) { unimplemented!() }
-//@EXTRACT report_empty
-
 //@EXTRACT add_fatal_lanes
 
 //@EXTRACT process_frame
